@@ -62,8 +62,17 @@ PROPS = {
             "HqModel.C20.c20_accept_request_checked",
             "HqModel.C20.c20_keyless",
             "HqModel.C20.c20_nonvacuous",
+            # the configurations of the real call sites (HqModel/Auth/Sites.lean, Props/C20Sites.lean)
+            "HqModel.Auth.c20_sites_refuse_echo", "HqModel.Auth.c20_sites_accept_honest", "HqModel.Auth.c20_equal_roles_witness",
         ],
-        "parts": [{
+        "parts": [
+            # component authhq: ClientSession::connect_to_server, accept_client (hyperqueue/src/transfer/connection.rs) and
+            # connect_to_server_and_authenticate (tako) over real TCP, against the honest peer and against a key-less peer that echoes
+            # every byte; the harness passes only the key -- roles and protocol number are the ones the code configures; 12 rows, all
+            # of them on every run
+            {"component": "authhq", "driver": "hqm-auth", "tags": ["res"], "clauses": ["c20."],
+             "quick": {"cases": 12, "shards": 4, "extra": []}, "thorough": {"cases": 12, "shards": 4, "extra": []}},
+            {
             "component": "auth", "driver": "hqm-auth",
             # `res`: accept/refuse of both ends; `sent`: kind (noauth/enc/error/none) of the response each end sent
             "tags": ["res", "sent"],
